@@ -233,12 +233,64 @@ impl Op {
     }
 }
 
+/// Swarm configuration of one history: which operations it concentrates on and how small the
+/// slot and value spaces are (a small space makes "compare, mutate, compare the same pair again"
+/// sequences and equal payloads in distinct allocations likely).
+#[derive(Clone, Copy, Debug, Default)]
+pub struct GenCfg {
+    pub allow_clone_panic: bool,
+    /// 0 = everything, 1 = names and shared strings only, 2 = nodes only
+    pub focus: u8,
+    pub small: bool,
+}
+
+impl GenCfg {
+    pub fn draw(rng: &mut Rng) -> GenCfg {
+        GenCfg {
+            allow_clone_panic: rng.chance(1, 3),
+            focus: match rng.below(10) {
+                0..=4 => 0,
+                5..=6 => 1,
+                _ => 2,
+            },
+            small: rng.chance(1, 2),
+        }
+    }
+}
+
 pub fn gen_op(rng: &mut Rng, allow_clone_panic: bool) -> Op {
-    let n = |rng: &mut Rng| rng.below(N_NAMES as u64) as u8;
-    let a = |rng: &mut Rng| rng.below(N_ARCS as u64) as u8;
-    let d = |rng: &mut Rng| rng.below(N_NODES as u64) as u8;
-    let s = |rng: &mut Rng| rng.below(N_STRS as u64) as u8;
+    gen_op_cfg(
+        rng,
+        &GenCfg {
+            allow_clone_panic,
+            focus: 0,
+            small: false,
+        },
+    )
+}
+
+pub fn gen_op_cfg(rng: &mut Rng, cfg: &GenCfg) -> Op {
+    let allow_clone_panic = cfg.allow_clone_panic;
+    let lim = |n: usize| -> u64 {
+        if cfg.small {
+            n.min(3) as u64
+        } else {
+            n as u64
+        }
+    };
+    let n = |rng: &mut Rng| rng.below(lim(N_NAMES)) as u8;
+    let a = |rng: &mut Rng| rng.below(lim(N_ARCS)) as u8;
+    let d = |rng: &mut Rng| rng.below(lim(N_NODES)) as u8;
+    let s = |rng: &mut Rng| rng.below(lim(N_STRS)) as u8;
     let t = |rng: &mut Rng| rng.below(TEXTS.len() as u64) as u8;
+    // node payloads: a small value space makes equal payloads in distinct allocations common
+    let val = |rng: &mut Rng| -> u64 {
+        if cfg.small || rng.chance(1, 4) {
+            rng.below(3)
+        } else {
+            rng.below(1000)
+        }
+    };
     let loc = |rng: &mut Rng| -> Option<(u8, u32)> {
         if rng.chance(1, 2) {
             Some((rng.below(8) as u8, start(rng)))
@@ -255,7 +307,12 @@ pub fn gen_op(rng: &mut Rng, allow_clone_panic: bool) -> Op {
             _ => u32::MAX - 64,
         }
     }
-    match rng.below(40) {
+    let kind = match cfg.focus {
+        1 => rng.below(29),
+        2 => 29 + rng.below(11),
+        _ => rng.below(40),
+    };
+    match kind {
         0..=2 => Op::NewHeap(n(rng), t(rng)),
         3 => Op::NewStatic(n(rng), t(rng)),
         4 => {
@@ -278,15 +335,15 @@ pub fn gen_op(rng: &mut Rng, allow_clone_panic: bool) -> Op {
         25..=26 => Op::Compare(n(rng), n(rng)),
         27 => Op::Serde(n(rng), n(rng)),
         28 => Op::Convert(n(rng), n(rng)),
-        29..=30 => Op::NodeNew(d(rng), rng.below(1000), loc(rng)),
+        29..=30 => Op::NodeNew(d(rng), val(rng), loc(rng)),
         31..=32 => Op::NodeClone(d(rng), d(rng)),
         33 => Op::NodeDrop(d(rng)),
-        34..=35 => Op::NodeMakeMut(d(rng), rng.below(1000), allow_clone_panic && rng.chance(1, 6)),
+        34..=35 => Op::NodeMakeMut(d(rng), val(rng), allow_clone_panic && rng.chance(1, 6)),
         36 => {
             if rng.chance(1, 2) {
-                Op::NodeGetMut(d(rng), rng.below(1000))
+                Op::NodeGetMut(d(rng), val(rng))
             } else {
-                Op::NodeSameLocation(d(rng), d(rng), rng.below(1000))
+                Op::NodeSameLocation(d(rng), d(rng), val(rng))
             }
         }
         37 => Op::NodeCompare(d(rng), d(rng)),
